@@ -109,6 +109,8 @@ func main() {
 			"document..lookupField", "document.Document.Has", "document.Document.Get", "document.Document.Set", "document.Document.SetAll", "document.Document.Fields", "document.Document.Copy",
 			"document.Document.AsMap", "document.Document.ToMap", "document..NewDocumentOf", "document..newDocumentOf", "document.Document.Unmarshal", "util..MapKeys", "util..CopyMap"}},
 		{"C19 C04", []string{"clover.DB.ExportCollection", "clover.DB.ImportCollection", "clover..restoreExpiresAt", "clover.DB.createCollectionWith", "clover.DB.CreateCollectionByQuery"}},
+		{"C05", []string{"badger..Open", "badger..OpenWithOptions", "bbolt..Open", "bbolt.boltStore.createRootBucketIfNotExists", "bbolt.boltStore.Close", "badger.badgerStore.Close",
+			"clover..Open", "clover..OpenWithStore", "clover.DB.Close"}},
 		{"C15", []string{"bbolt.boltTx.Set", "bbolt.boltTx.Get", "bbolt.boltTx.Delete", "bbolt.boltTx.Cursor", "bbolt.boltTx.Commit", "bbolt.boltTx.Rollback", "bbolt.boltTx.bucket", "bbolt.boltStore.Begin",
 			"bbolt.boltCursor.Seek", "bbolt.boltCursor.adjustSeek", "bbolt.boltCursor.Next", "bbolt.boltCursor.Valid", "bbolt.boltCursor.Item", "bbolt.boltCursor.Close",
 			"badger.badgerTx.Set", "badger..getItemValue", "badger.badgerTx.Get", "badger.badgerTx.Commit", "badger.badgerTx.Rollback", "badger.badgerTx.Cursor", "badger.badgerStore.Begin",
@@ -397,7 +399,7 @@ func main() {
 	strList("receiverWrites", "assignments through a method receiver (all packages)", recvWrites)
 	sort.Strings(layout)
 	strList("keyLayout", "the functions that define the key layout, the type ranks and the key encoding dispatch, statement by statement", layout)
-	for _, prop := range []string{"C01", "C02", "C03", "C04", "C06", "C08", "C09", "C10", "C11", "C12", "C13", "C14", "C15", "C16", "C17", "C18", "C19"} {
+	for _, prop := range []string{"C01", "C02", "C03", "C04", "C05", "C06", "C08", "C09", "C10", "C11", "C12", "C13", "C14", "C15", "C16", "C17", "C18", "C19"} {
 		sort.Strings(logic[prop])
 		strList("logic"+prop, "the source text behind "+prop+": full text of the functions its model was transcribed from (comments and layout removed)", logic[prop])
 	}
